@@ -4,6 +4,7 @@
 package main
 
 import (
+	"encoding/json"
 	"flag"
 	"fmt"
 	"go/ast"
@@ -16,9 +17,11 @@ import (
 	"strings"
 )
 
+type genError string
+
+// fail aborts the translation of the current table (fails closed).
 func fail(format string, args ...any) {
-	fmt.Fprintf(os.Stderr, "gen: "+format+"\n", args...)
-	os.Exit(1)
+	panic(genError(fmt.Sprintf(format, args...)))
 }
 
 func parseFile(path string) *ast.File {
@@ -383,6 +386,33 @@ func main() {
 	repo := flag.String("repo", "/repo", "repository root")
 	out := flag.String("out", "/verif/coq/theories/Gen", "output directory")
 	flag.Parse()
-	genOpTable(*repo, *out)
-	genBuiltins(*repo, *out)
+	status := map[string]string{}
+	run := func(table string, stub string, f func(repo, out string)) {
+		defer func() {
+			if r := recover(); r != nil {
+				ge, ok := r.(genError)
+				if !ok {
+					panic(r)
+				}
+				status[table] = string(ge)
+				fmt.Fprintf(os.Stderr, "gen: %s: %s\n", table, string(ge))
+				if stub != "" {
+					// keep the rest of the development building; the status file marks the table as rejected
+					_ = os.WriteFile(filepath.Join(*out, table+".v"), []byte(stub), 0o644)
+				}
+			}
+		}()
+		f(*repo, *out)
+		status[table] = "ok"
+	}
+	run("OpTable", "", genOpTable)
+	run("Builtins", "", genBuiltins)
+	run("Adapters", adaptersStub, genAdapters)
+	js, _ := json.MarshalIndent(status, "", "  ")
+	_ = os.WriteFile(filepath.Join(*out, "status.json"), append(js, '\n'), 0o644)
+	for _, v := range status {
+		if v != "ok" {
+			os.Exit(1)
+		}
+	}
 }
